@@ -558,8 +558,7 @@ func (this *LedgerStoreImp) SubmitBlock(block *types.Block, result store.Execute
 	if blockHeight != nextBlockHeight {
 		return fmt.Errorf("block height %d not equal next block height %d", blockHeight, nextBlockHeight)
 	}
-	var err error
-	this.vbftPeerInfoblock, err = this.verifyHeader(block.Header, this.vbftPeerInfoblock)
+	peerInfo, err := this.verifyHeader(block.Header, this.vbftPeerInfoblock)
 	if err != nil {
 		return fmt.Errorf("verifyHeader error %s", err)
 	}
@@ -568,6 +567,8 @@ func (this *LedgerStoreImp) SubmitBlock(block *types.Block, result store.Execute
 	if err != nil {
 		return fmt.Errorf("saveBlock error %s", err)
 	}
+	// the validator set in force changes only once the announcing block is committed
+	this.vbftPeerInfoblock = peerInfo
 	this.delHeaderCache(block.Hash())
 	return nil
 }
@@ -584,8 +585,7 @@ func (this *LedgerStoreImp) AddBlock(block *types.Block, stateMerkleRoot common.
 	if blockHeight != nextBlockHeight {
 		return fmt.Errorf("block height %d not equal next block height %d", blockHeight, nextBlockHeight)
 	}
-	var err error
-	this.vbftPeerInfoblock, err = this.verifyHeader(block.Header, this.vbftPeerInfoblock)
+	peerInfo, err := this.verifyHeader(block.Header, this.vbftPeerInfoblock)
 	if err != nil {
 		return fmt.Errorf("verifyHeader error %s", err)
 	}
@@ -593,6 +593,10 @@ func (this *LedgerStoreImp) AddBlock(block *types.Block, stateMerkleRoot common.
 	err = this.saveBlock(block, stateMerkleRoot)
 	if err != nil {
 		return fmt.Errorf("saveBlock error %s", err)
+	}
+	// the validator set in force changes only once the announcing block is committed
+	if this.GetCurrentBlockHeight() == blockHeight {
+		this.vbftPeerInfoblock = peerInfo
 	}
 	this.delHeaderCache(block.Hash())
 	return nil
